@@ -242,11 +242,31 @@ pub fn check(c: &SizeCase, info: &mut CaseInfo) -> Result<(), String> {
 #[derive(Clone, Debug, PartialEq, Eq, Hash, Serialize, Deserialize)]
 pub struct DisplayCase {
     pub cfg: Config,
+    /// a full-screen clear issued before the test image: 0 none, 1 green, 2 red, 3 blue, 4 white, 5 black
+    #[serde(default)]
+    pub pre_clear: u8,
 }
 
 pub fn check_display(c: &DisplayCase, info: &mut CaseInfo) -> Result<(), String> {
     let cfg = &c.cfg;
     let mut s = Session::start(cfg)?;
+    if c.pre_clear != 0 {
+        // earlier drawing must not leak into the picture (e.g. patterns staged in a transport buffer)
+        let b = s.bits;
+        let col = match (c.pre_clear, b) {
+            (1, 16) => 0x07e0,
+            (1, _) => 0x00fc0,
+            (2, 16) => 0xf800,
+            (2, _) => 0x3f000,
+            (3, 16) => 0x001f,
+            (3, _) => 0x0003f,
+            (4, 16) => 0xffff,
+            (4, _) => 0x3ffff,
+            _ => 0,
+        };
+        s.dut.clear(col).map_err(|e| format!("clear failed: {:?}", e))?;
+        info.label("pre-cleared");
+    }
     match s.dut.draw_test_image() {
         Ok(()) => {}
         Err(e) => return Err(format!("drawing the test image on a display failed: {:?}", e)),
@@ -299,10 +319,12 @@ pub fn check_display(c: &DisplayCase, info: &mut CaseInfo) -> Result<(), String>
 }
 
 fn display_strategy() -> BoxedStrategy<DisplayCase> {
-    let mut menu = gen::ConfigMenu::all_rec();
+    let mut menu = gen::ConfigMenu::all_transports();
     menu.models = crate::models::builtin_models();
-    (gen::config(menu), 32u16..=120, 32u16..=120, any::<(u16, u16)>())
-        .prop_map(|(mut cfg, w, h, (a, b))| {
+    (gen::config(menu), 32u16..=120, 32u16..=120, any::<(u16, u16)>(), 0u8..12)
+        .prop_map(|(mut cfg, w, h, (a, b), pre)| {
+            // pin-level transports: keep the picture small (cost)
+            let (w, h) = if cfg.transport.pin_level() { (32 + w % 10, 32 + h % 10) } else { (w, h) };
             // windows of at least 32x32 (where the framebuffer allows) so that the predicates apply
             let (fw, fh) = cfg.model.fb();
             cfg.w = w.min(fw);
@@ -318,7 +340,7 @@ fn display_strategy() -> BoxedStrategy<DisplayCase> {
                 1 => fh - cfg.h,
                 _ => (b / 4) % (fh - cfg.h + 1),
             };
-            DisplayCase { cfg }
+            DisplayCase { cfg, pre_clear: if pre < 6 { pre } else { 0 } }
         })
         .boxed()
 }
@@ -398,7 +420,7 @@ pub fn run(ctx: &Ctx) -> Report {
 
     let mut sec = Section::new(
         &format!("real-displays[{}]", ctx.variant),
-        "TestImage drawn through a real Display of every built-in model, all 8 orientations, generated windows/offsets/options; frame memory read back through the inverse geometric transform: same predicates, nothing written outside the panel window, identical to the plain-canvas picture",
+        "TestImage drawn through a real Display of every built-in model, all 8 orientations, generated windows/offsets/options, recording and pin-level transports (SPI with generated buffer lengths, 8/16-bit parallel), optionally after a full-screen clear to green/red/blue/white/black; frame memory read back through the inverse geometric transform: same predicates, nothing written outside the panel window, identical to the plain-canvas picture",
     );
     run_generated(&mut sec, ctx.seed ^ 19, ctx.cases(8_000, 200_000), ctx.workers, display_strategy, check_display, |_, r| format!("c19:display:{}", r.chars().take(24).collect::<String>()));
     rep.sections.push(sec);
